@@ -72,6 +72,11 @@ def bound_exp(f, negative=False):
   construction inside the exact regime of the straight-through expression."""
   if not f["use_ste"]:
     return FMAX_EXP + 1
+  if (f["relu"] and not negative and f["max_value"] is not None
+      and f["max_value"] < 2.0 ** (f["top"] + 23)):
+    # the surrogate of the ReLU variant above max_value is the constant
+    # max_value, not x: exact for every finite positive input
+    return FMAX_EXP + 1
   b = f["top"] + 23
   if negative and f["relu"] and f["slope"]:
     b += int(round(-math.log2(f["slope"])))
@@ -138,6 +143,12 @@ def walk(cfg, f=None):
                        2.0 ** -126, 2.0 ** -125, 1.5 * 2.0 ** -126,
                        3.0e38, 1e30, 1e10, 2.0 ** 24, 2.0 ** 31],
                       dtype=np.float64).clip(0, 3.4e38).astype(F32))
+  # around and far beyond 2^24 * 2^top (kept only where the surrogate allows)
+  t24 = np.array([2.0 ** min(f["top"] + k, FMAX_EXP) for k in (22, 23, 24, 25, 26, 30, 40)])
+  pts.append(_steps(t24.astype(F32), [0, 1, 2, 64]))
+  pts.append(np.array([1.5 * 2.0 ** min(f["top"] + 24, 126), 1e8, 1e15, 1e20,
+                       2.0 ** 64, 2.0 ** 100, 2.0 ** 127, 3.4028235e38],
+                      dtype=np.float64).astype(F32))
   pos = np.unique(np.concatenate(pts))
   pos = pos[np.isfinite(pos) & (pos > 0)]
   neg = -pos
@@ -227,8 +238,11 @@ def tensor_strategy(f, max_elems=48):
   elem_near = st.builds(mk, fam, e_any, off, mant, st.booleans())
   elem_far = st.builds(mk, fam, e_far, off, mant, st.booleans())
 
+  fmax = float(F32(3.4028235e38))
   specials = [0.0, -0.0, 1e-45, -1e-45, 1e-40, -1e-40, float(F32(2.0 ** -126)),
-              -float(F32(2.0 ** -126))]
+              -float(F32(2.0 ** -126)), fmax, -fmax, 1e8, -1e8,
+              2.0 ** min(top + 24, 127), -(2.0 ** min(top + 24, 127)),
+              float(F32(1.5 * 2.0 ** min(top + 25, 126)))]
   for c in [R.EPS32] + ([f["max_value"]] if f["max_value"] is not None else []):
     for o in (-2, -1, 0, 1, 2):
       b = int(np.asarray(F32(c)).view(np.int32)) + o
